@@ -184,6 +184,9 @@ class C09(core.Prop):
             'added, and is verified against a generated frame before and after. non-trivial = >= 2 constraints; '
             'distinct by content')
     trusted_base = [
+        'date bounds carrying a UTC offset (written for timezone-aware columns, read back by get_date since the fix 5640a7f) '
+        'are outside the TddaFile model: the model covers the naive layouts RD / RDT / RDTM only; aware bounds are exercised '
+        'by the C01 oracle (timezone-aware column family through the .tdda file leg) and by C02',
         'the json library (json.dumps / json.loads) is not modelled: its contract loads(dumps(x)) = x and the layout of '
         'dumps(indent=4) (one structural newline per line, no trailing blanks, strings quoted) are assumed and exercised',
     ]
